@@ -30,8 +30,8 @@ func init() {
 		Families: []Family{
 			witnessFamily("C10"),
 			{Name: "chains", N: func(t string) int { return c10NumChains(t) }, Run: c10Chains},
-			{Name: "ws", N: tierN(80000, 1000000), Run: c10Whitespace},
-			{Name: "abbrev", N: tierN(80000, 1000000), Run: c10Abbrev},
+			{Name: "ws", N: tierN(80000, 3000000), Run: c10Whitespace},
+			{Name: "abbrev", N: tierN(80000, 3000000), Run: c10Abbrev},
 		},
 	})
 }
